@@ -130,6 +130,11 @@ def shard(S, p):
             tot = sum(vals)
             vals = [v / tot for v in vals]        # an input that is already a frequency spectrum
             S.count("normalized_inputs")
+            if rng.random() < 0.6:
+                # ... or ALMOST one: the total is off by 1e-9 .. 1e-2 (a spectrum that went through rounding, or lost a class)
+                off = 1.0 + rng.choice([1e-9, 1e-7, 1e-6, 3e-6, 1e-5, 1e-4, 4e-4, 1e-3, 1e-2, 2e-7 * len(vals)]) * rng.choice([1, -1])
+                vals = [v * off for v in vals]
+                S.count("nearly_normalized_inputs")
         inp = GS.npy_bytes(shape, vals) if (rng.random() < 0.7 or max(vals) < 1e-6) else GS.text_spectrum(shape, vals, 17)
         d = len(shape)
         for subset in itertools.product([False, True], repeat=4):
@@ -144,6 +149,8 @@ def shard(S, p):
                     margs = ["-m", ",".join(map(str, remove))]
                 else:
                     keep = [j for j in range(d) if j not in remove]
+                    if rng.random() < 0.3:
+                        keep = keep + [rng.choice(keep) for _ in range(rng.randint(1, 2))]      # an axis named twice is still one axis
                     rng.shuffle(keep)
                     margs = ["-M", ",".join(map(str, keep))]
                 cur = [s for j, s in enumerate(shape) if j not in remove]
